@@ -484,6 +484,34 @@ def r04h(ctx):
     ctx.floor("R04h", k, 1, "do-nothing guards of EditDistance.tighten_bounds")
 
 
+def r04m(ctx):
+    m = ctx.model
+    ctx.rule("R04m", "EditCollection expands its sub-edits lazily: tighten_bounds may answer 'no progress' only once the iterator is "
+                     "exhausted (`self._edit_iter is None`) - a sub-edit not expanded yet is not known to be final, so an earlier False "
+                     "leaves a wide interval that the caller takes for the result")
+    q = m.need_class("EditCollection")
+    f = m.method(q, "tighten_bounds")
+    n = 0
+    for r in walk_no_nested(f.node):
+        if not isinstance(r, ast.Return):
+            continue
+        if isinstance(r.value, ast.Constant) and r.value.value is True:
+            continue
+        signed = flatten_conditions(dominating_conditions(r))
+        facts = {(ast.unparse(t).replace(" ", ""), pol) for t, pol in signed}
+        if ("self.valid", False) in facts:
+            continue            # an edit that has become invalid has nothing left to refine
+        n += 1
+        if ("self._edit_iterisNone", True) in facts or ("self._edit_iterisnotNone", False) in facts:
+            ctx.proved("R04m", f.file, "EditCollection.tighten_bounds", r, f"`{norm(r, 40)}`", "reached only when every sub-edit has been expanded")
+        else:
+            ctx.violation("R04m", f.file, "EditCollection.tighten_bounds", r, f"`{norm(r, 40)}`",
+                          f"`{norm(r, 50)}` can answer False while `self._edit_iter` still has sub-edits to hand out (facts: "
+                          f"{sorted(t for t, p_ in facts if p_)}): with {{\"a\":1,\"b\":2}} vs {{\"a\":1,\"b\":3}} under -k the first entry is an "
+                          f"unchanged Match, nothing tightens, and the collection reports 'no progress' at [0, 21]")
+    ctx.floor("R04m", n, 1, "possibly-False returns of EditCollection.tighten_bounds")
+
+
 def r04i(ctx):
     m = ctx.model
     ctx.rule("R04i", "EditCollection's interval while sub-edits are still being expanded: the upper bound starts at the size-derived "
@@ -542,6 +570,7 @@ def run(ctx):
     from .c02 import r02f, r02f2
     r02f(ctx)     # the size-derived cap of compound edits is an upper bound only if no node has size 0
     r02f2(ctx)    # ... containers included
+    r04m(ctx)
     from .c03 import r03a
     r03a(ctx)     # an interval that is not computed from the sub-edits the script lists need not contain the script's cost
     from .c05 import r05c
